@@ -6,7 +6,7 @@ and the canonical signed group of circuit|0..0> must equal the canonical signed 
 """
 import random
 
-from ..core import Partial, call, exc_name
+from ..core import Partial, call, exc_name, Retained
 from ..oracle import conn as oconn, groups, lcorbit
 from ..oracle.pauli import gates_of, state_of, UnknownGate, to_str
 from ..oracle.circ import fmt as fmt_gates
@@ -48,7 +48,7 @@ def plan(tier, seed):
     return t
 
 
-def check_case(case, p=None):
+def check_case(case, p=None, retain=None):
     """Run one case against the real API.  Returns a list of violations (key, what)."""
     from htstabilizer.stabilizer_circuits import get_preparation_circuit
     n = case["n"]
@@ -64,6 +64,8 @@ def check_case(case, p=None):
                  "get_preparation_circuit raised %s (%s) on a valid stabilizer %s"
                  % (exc_name(qc), qc, ws.strings(case["gens"], n)))], None
     gates = gates_of(qc)
+    if retain is not None:
+        retain.add(qc, {"case": wp.case_json(case), "requested": ws.strings(case["gens"], n)})
     try:
         got = groups.canon(state_of(gates, n), n)
     except UnknownGate as e:
@@ -78,11 +80,27 @@ def check_case(case, p=None):
     return out, gates
 
 
+def digest_circuit(qc):
+    return tuple(gates_of(qc))
+
+
+def retention_verdicts(p, retain, api):
+    """Circuits handed out earlier in this task must still be what they were when they were returned."""
+    for info, d0, d1 in retain.changed():
+        p.violate("returned-circuit-changed-later api=%s" % api,
+                  "the circuit returned for %s was [%s] at return time but is [%s] after later calls of the same API "
+                  "(the library edited an object it had already handed out)" % (info["requested"], fmt_gates(list(d0)), fmt_gates(list(d1)) if isinstance(d1, tuple) else d1),
+                  dict(info["case"], retention=True))
+    p.counters["returned circuits re-inspected after later calls"] += len(retain.items)
+    retain.clear()
+
+
 def work(task):
     p = Partial()
+    retain = Retained(digest_circuit, 600)
     for case in wp.iter_cases(task):
         p.evals += 1
-        vs, gates = check_case(case)
+        vs, gates = check_case(case, retain=retain)
         p.counters["conf %d-%s" % (case["n"], case["conn"])] += 1
         p.counters["fmt " + case["fmt"]] += 1
         p.counters["stratum " + case["stratum"]] += 1
@@ -102,6 +120,7 @@ def work(task):
             p.violate(key, what, wp.case_json(case))
         if len(p.samples) < 2:
             p.sample(wp.sample_of(case))
+    retention_verdicts(p, retain, "prepare")
     return p
 
 
@@ -133,5 +152,16 @@ def finalize(total, tier, seed):
 
 def replay(case_j):
     case = wp.case_from_json(case_j)
+    if case_j.get("retention"):
+        # history effect: request the same generators with every sign pattern, then look at all results again
+        import itertools
+        p = Partial()
+        retain = Retained(digest_circuit, 100)
+        n = case["n"]
+        for sg in list(itertools.product((0, 1), repeat=n))[:16]:
+            c2 = dict(case, gens=[(x, z, s) for (x, z, _), s in zip(case["gens"], sg)], circuit=None, graph_state=False, fmt="str+")
+            check_case(c2, retain=retain)
+        retention_verdicts(p, retain, "prepare")
+        return p.violations
     vs, _ = check_case(case)
     return [{"key": k, "what": w} for k, w in vs]
